@@ -17,6 +17,7 @@ import (
 	"rgverif/internal/gen"
 	"rgverif/internal/inproc"
 	"rgverif/internal/model"
+	"rgverif/internal/respc"
 )
 
 // Div is one observed divergence.
@@ -203,6 +204,15 @@ func Run(prog []gen.Cmd, o Opts) ([]Div, Stats) {
 			add(Div{Kind: "panic", Step: i, Cmd: Quote(cmd), Got: res.Panic,
 				Sig: "panic|" + name + "|" + shape + "|" + frame})
 			return divs, st // locks may be left held: the instance is discarded
+		}
+		if o.Strict && !res.NilReply {
+			// the bytes the handler writes must be exactly one well-formed value that decodes to the structural reply
+			vals, used, _ := respc.DecodeAll(res.Raw)
+			same := len(vals) == 1 && (vals[0].Equal(res.V) || (vals[0].Kind == '-' && res.V.Kind == '-')) // error texts are free (and sanitised on the wire)
+			if len(vals) != 1 || used != len(res.Raw) || !same {
+				add(Div{Kind: "framing", Step: i, Cmd: Quote(cmd), Want: "one well-formed RESP value", Got: strconv.Quote(string(res.Raw)),
+					Sig: "framing-wire|" + name + "|got=" + res.V.KindName()})
+			}
 		}
 		out := db.Step(cmd, res.V, tm)
 		st.Tuples[name+"|"+shape+"|"+kt+"|"+res.V.KindName()]++
